@@ -1,4 +1,607 @@
 package main
 
-func c18Layout(c *Ctx)  {}
-func c18Consume(c *Ctx) {}
+// E6 — codec layout: wire-token sequences of stream writers and readers (C18.R2),
+// field/offset tables of the frame headers (C18.R3), storage ownership of decoded
+// byte fields (C18.R4).
+
+import (
+	"fmt"
+	"go/token"
+	"go/types"
+	"sort"
+	"strings"
+
+	"golang.org/x/tools/go/ssa"
+)
+
+// ---------------------------------------------------------------- stream codecs
+
+// streamPairs: writer / reader of the same encoding. Methods WriteTo/ReadFrom of one
+// type pair up by receiver type; functions are listed here.
+type streamPair struct {
+	rel, writer, reader string
+	token               string // nested-token name when called from another codec
+}
+
+var streamPairs = []streamPair{
+	{"certs", "(*Certificate).WriteTo", "(*Certificate).ReadFrom", "Certificate"},
+	{"certs", "(*IDChunk).WriteTo", "(*IDChunk).ReadFrom", "IDChunk"},
+	{"certs", "(*Name).WriteTo", "(*Name).ReadFrom", "Name"},
+	{"authgrants", "(*AgMessage).WriteTo", "(*AgMessage).ReadFrom", "AgMessage"},
+	{"authgrants", "(*Intent).WriteTo", "(*Intent).ReadFrom", "Intent"},
+	{"authgrants", "(*CommandGrantData).WriteTo", "(*CommandGrantData).ReadFrom", "CommandGrantData"},
+	{"authgrants", "(*ShellGrantData).WriteTo", "(*ShellGrantData).ReadFrom", "ShellGrantData"},
+	{"authgrants", "(*LocalPFGrantData).WriteTo", "(*LocalPFGrantData).ReadFrom", "LocalPFGrantData"},
+	{"authgrants", "(*RemotePFGrantData).WriteTo", "(*RemotePFGrantData).ReadFrom", "RemotePFGrantData"},
+	{"common", "WriteString", "ReadString", "String"},
+	{"authgrants", "WriteUnreliableProxyID", "ReadUnreliableProxyID", "ProxyID"},
+}
+
+func isIface(t types.Type, pkg, name string) bool {
+	n, ok := t.(*types.Named)
+	return ok && n.Obj().Pkg() != nil && n.Obj().Pkg().Path() == pkg && n.Obj().Name() == name
+}
+
+// wireSize is encoding/binary's fixed size of a type (-1 if not fixed).
+func wireSize(t types.Type) int64 {
+	switch u := t.Underlying().(type) {
+	case *types.Basic:
+		switch u.Kind() {
+		case types.Bool, types.Int8, types.Uint8:
+			return 1
+		case types.Int16, types.Uint16:
+			return 2
+		case types.Int32, types.Uint32, types.Float32:
+			return 4
+		case types.Int64, types.Uint64, types.Float64:
+			return 8
+		}
+	case *types.Array:
+		if e := wireSize(u.Elem()); e >= 0 {
+			return e * u.Len()
+		}
+	case *types.Struct:
+		var s int64
+		for i := 0; i < u.NumFields(); i++ {
+			e := wireSize(u.Field(i).Type())
+			if e < 0 {
+				return -1
+			}
+			s += e
+		}
+		return s
+	}
+	return -1
+}
+
+// byteViewLen: constant length of a []byte view (slice of an array, make with constant length), or -1.
+func byteViewLen(v ssa.Value) int64 {
+	v = strip(v)
+	switch x := v.(type) {
+	case *ssa.Slice:
+		if x.Low == nil && x.High == nil {
+			if n, ok := arrayLen(x.X.Type()); ok {
+				return n
+			}
+			return byteViewLen(x.X)
+		}
+		lo := int64(0)
+		if x.Low != nil {
+			l, ok := constInt(x.Low)
+			if !ok {
+				return -1
+			}
+			lo = l
+		}
+		if x.High != nil {
+			if h, ok := constInt(x.High); ok {
+				return h - lo
+			}
+			return -1
+		}
+		if n, ok := arrayLen(x.X.Type()); ok {
+			return n - lo
+		}
+		if n := byteViewLen(x.X); n >= 0 {
+			return n - lo
+		}
+	case *ssa.MakeSlice:
+		if n, ok := constInt(x.Len); ok {
+			return n
+		}
+	}
+	return -1
+}
+
+type codecSide struct {
+	P       *Program
+	fn      *ssa.Function
+	writer  bool
+	nested  map[string]string // callee funcID -> token
+	streams map[ssa.Value]bool
+}
+
+// tokensOnPath extracts the wire tokens of one path.
+func (cs *codecSide) tokensOnPath(p *Path) (toks []string, problems []string) {
+	isStream := func(v ssa.Value, at int) bool {
+		v = p.Resolve(strip(v), at)
+		if cs.streams[v] {
+			return true
+		}
+		// derived readers: io.TeeReader(r, _), io.LimitReader(r, _), bufio.NewReader(r)
+		if call, _ := fromCall(v); call != nil {
+			switch calleeID(call) {
+			case "io.TeeReader", "io.LimitReader", "bufio.NewReader":
+				a := p.Resolve(strip(call.Call.Args[0]), at)
+				if cs.streams[a] {
+					return true
+				}
+				if c2, _ := fromCall(a); c2 != nil && calleeID(c2) == "io.TeeReader" && cs.streams[p.Resolve(strip(c2.Call.Args[0]), at)] {
+					return true
+				}
+			}
+		}
+		return false
+	}
+	fixedOrVar := func(v ssa.Value, at int) string {
+		v = p.Deref(v, at)
+		if n := byteViewLen(v); n >= 0 {
+			return fmt.Sprintf("F%d", n)
+		}
+		return "V"
+	}
+	p.ForEach(func(i int, ins ssa.Instruction) bool {
+		call, ok := ins.(*ssa.Call)
+		if !ok {
+			return true
+		}
+		cc := &call.Call
+		if cc.IsInvoke() {
+			if !isStream(cc.Value, i) {
+				return true
+			}
+			switch cc.Method.Name() {
+			case "Write":
+				toks = append(toks, fixedOrVar(cc.Args[0], i))
+			case "Read":
+				toks = append(toks, fixedOrVar(cc.Args[0], i))
+				problems = append(problems, fmt.Sprintf("%s: a bare Read may return fewer bytes than asked for; the decoder would mis-frame the rest", cs.P.InstrPos(ins)))
+			default:
+				problems = append(problems, fmt.Sprintf("%s: unrecognised use of the stream (%s)", cs.P.InstrPos(ins), cc.Method.Name()))
+			}
+			return true
+		}
+		if _, isB := cc.Value.(*ssa.Builtin); isB {
+			return true
+		}
+		// which argument is the stream?
+		sIdx := -1
+		for k, a := range cc.Args {
+			if isStream(a, i) {
+				sIdx = k
+			}
+		}
+		if sIdx < 0 {
+			return true
+		}
+		id := calleeID(call)
+		switch id {
+		case "encoding/binary.Write":
+			v := strip(cc.Args[2])
+			if mi, ok := cc.Args[2].(*ssa.MakeInterface); ok {
+				v = mi.X
+			}
+			if n := wireSize(v.Type()); n >= 0 {
+				toks = append(toks, fmt.Sprintf("F%d", n))
+			} else if sl, ok := v.Type().Underlying().(*types.Slice); ok && wireSize(sl.Elem()) >= 0 {
+				toks = append(toks, "V")
+			} else {
+				problems = append(problems, fmt.Sprintf("%s: binary.Write of a value without a fixed wire size", cs.P.InstrPos(ins)))
+			}
+		case "encoding/binary.Read":
+			v := cc.Args[2]
+			if mi, ok := v.(*ssa.MakeInterface); ok {
+				v = mi.X
+			}
+			if pt, ok := v.Type().Underlying().(*types.Pointer); ok && wireSize(pt.Elem()) >= 0 {
+				toks = append(toks, fmt.Sprintf("F%d", wireSize(pt.Elem())))
+			} else {
+				problems = append(problems, fmt.Sprintf("%s: binary.Read into a value without a fixed wire size", cs.P.InstrPos(ins)))
+			}
+		case "io.ReadFull":
+			toks = append(toks, fixedOrVar(cc.Args[1], i))
+		case "io.ReadAtLeast":
+			toks = append(toks, "V")
+		case "io.CopyN":
+			if sIdx == 1 {
+				if n, ok := constInt(cc.Args[2]); ok {
+					toks = append(toks, fmt.Sprintf("F%d", n))
+				} else {
+					toks = append(toks, "V")
+				}
+			}
+		case "io.TeeReader", "io.LimitReader", "bufio.NewReader":
+			// derives a stream: no bytes move
+		case "io.Copy", "io.ReadAll":
+			toks = append(toks, "REST")
+		default:
+			if t, ok := cs.nested[id]; ok {
+				toks = append(toks, "N:"+t)
+			} else if f := calleeFunc(cc); f != nil && (f.Name() == "WriteTo" || f.Name() == "ReadFrom") {
+				toks = append(toks, "N:"+recvTypeName(f))
+			} else {
+				problems = append(problems, fmt.Sprintf("%s: the stream is handed to %s, whose layout is not modelled", cs.P.InstrPos(ins), id))
+			}
+		}
+		return true
+	})
+	return
+}
+
+func recvTypeName(f *types.Func) string {
+	sig := f.Type().(*types.Signature)
+	if sig.Recv() == nil {
+		return f.Name()
+	}
+	t := sig.Recv().Type()
+	if p, ok := t.(*types.Pointer); ok {
+		t = p.Elem()
+	}
+	if n, ok := t.(*types.Named); ok {
+		return n.Obj().Name()
+	}
+	return t.String()
+}
+
+// normTokens merges adjacent fixed tokens and collapses repetitions of one nested token.
+func normTokens(toks []string) string {
+	var out []string
+	fixed := int64(0)
+	flush := func() {
+		if fixed > 0 {
+			out = append(out, fmt.Sprintf("F%d", fixed))
+			fixed = 0
+		}
+	}
+	for _, t := range toks {
+		var n int64
+		if _, err := fmt.Sscanf(t, "F%d", &n); err == nil && strings.HasPrefix(t, "F") {
+			fixed += n
+			continue
+		}
+		flush()
+		if strings.HasPrefix(t, "N:") && len(out) > 0 && (out[len(out)-1] == t || out[len(out)-1] == t+"+") {
+			out[len(out)-1] = t + "+"
+			continue
+		}
+		out = append(out, t)
+	}
+	flush()
+	if len(out) == 0 {
+		return "(nothing)"
+	}
+	return strings.Join(out, " ")
+}
+
+func streamParam(fn *ssa.Function, writer bool) *ssa.Parameter {
+	for _, p := range fn.Params {
+		if writer && isIface(p.Type(), "io", "Writer") || !writer && isIface(p.Type(), "io", "Reader") {
+			return p
+		}
+	}
+	return nil
+}
+
+func c18Layout(c *Ctx) {
+	P := c.P
+	c.Rule("C18.R2", "layout agreement of the stream codecs: for each writer/reader pair the set of wire-token sequences over all success paths (fixed widths from the static types handed to binary.Write/Read, w.Write of arrays and literals, io.ReadFull into constant-length views; variable segments; nested codecs; adjacent fixed widths summed, loop repetitions collapsed) is the same on both sides; no bare Read, no unmodelled use of the stream (E1 paths + types)")
+	nested := map[string]string{}
+	type side struct{ fn *ssa.Function }
+	for _, sp := range streamPairs {
+		for _, n := range []string{sp.writer, sp.reader} {
+			if fn := P.Func(sp.rel, n); fn != nil {
+				if fo, ok := fn.Object().(*types.Func); ok {
+					nested[funcID(fo)] = sp.token
+				}
+			}
+		}
+	}
+	pairs := 0
+	for _, sp := range streamPairs {
+		w, r := P.Func(sp.rel, sp.writer), P.Func(sp.rel, sp.reader)
+		cons := sp.rel + "." + sp.token
+		if w == nil || r == nil {
+			c.Undecided("C18.R2", cons, "writer or reader not found: "+sp.writer+" / "+sp.reader)
+			continue
+		}
+		c.Analysed(FuncName(w))
+		c.Analysed(FuncName(r))
+		sets := [2]map[string]*Path{{}, {}}
+		var problems []string
+		okAll := true
+		for k, fn := range []*ssa.Function{w, r} {
+			sp := streamParam(fn, k == 0)
+			if sp == nil {
+				c.Undecided("C18.R2", cons, "no io.Writer / io.Reader parameter in "+FuncName(fn))
+				okAll = false
+				continue
+			}
+			cs := &codecSide{P: P, fn: fn, writer: k == 0, nested: nested, streams: map[ssa.Value]bool{sp: true}}
+			if !walkAllOpts(c, "C18.R2", fn, PathOpts{MaxVisits: 3}, func(p *Path) {
+				if !isSuccess(p) {
+					return
+				}
+				toks, pr := cs.tokensOnPath(p)
+				problems = append(problems, pr...)
+				key := normTokens(toks) + pathDiscriminants(p)
+				if sets[k][key] == nil {
+					sets[k][key] = p
+				}
+			}) {
+				okAll = false
+			}
+		}
+		if !okAll {
+			continue
+		}
+		pairs++
+		sort.Strings(problems)
+		if len(problems) > 0 {
+			c.Fail("C18.R2", cons+"#stream-use", P.Pos(r.Pos()), problems[0])
+		} else {
+			c.OK("C18.R2", cons+"#stream-use", P.Pos(r.Pos()), "every use of the stream is a modelled full read / write")
+		}
+		var onlyW, onlyR []string
+		for k := range sets[0] {
+			if !layoutMatched(k, sets[1]) {
+				onlyW = append(onlyW, k)
+			}
+		}
+		for k := range sets[1] {
+			if !layoutMatched(k, sets[0]) {
+				onlyR = append(onlyR, k)
+			}
+		}
+		sort.Strings(onlyW)
+		sort.Strings(onlyR)
+		var all []string
+		for k := range sets[0] {
+			all = append(all, k)
+		}
+		sort.Strings(all)
+		switch {
+		case len(onlyW) > 0:
+			c.Fail("C18.R2", cons+"#layout", P.Pos(w.Pos()), fmt.Sprintf("%s can emit the layout [%s], which no success path of %s reads (reader layouts: %s): the value does not round-trip", FuncName(w), onlyW[0], FuncName(r), strings.Join(keysOf(sets[1]), " | ")), pathTrace(P, sets[0][onlyW[0]])...)
+		case len(onlyR) > 0:
+			c.Fail("C18.R2", cons+"#layout", P.Pos(r.Pos()), fmt.Sprintf("%s can accept the layout [%s], which no success path of %s writes (writer layouts: %s): re-encoding what was parsed changes it", FuncName(r), onlyR[0], FuncName(w), strings.Join(keysOf(sets[0]), " | ")), pathTrace(P, sets[1][onlyR[0]])...)
+		default:
+			c.OK("C18.R2", cons+"#layout", P.Pos(w.Pos()), "both sides: "+strings.Join(all, " | "))
+		}
+	}
+	c.Floor("C18.R2", "stream codec pairs compared", pairs, 10)
+}
+
+// pathDiscriminants lists the field == constant tests that hold on the path (the case of
+// a switch over a message / grant type), so that both sides must attach the same
+// layout to the same discriminant value.
+func pathDiscriminants(p *Path) string {
+	var ds []string
+	seen := map[string]bool{}
+	for k, v := range p.FactsAt(len(p.Blocks) - 1) {
+		if !v || k.op != token.EQL || k.y == nil {
+			continue
+		}
+		for _, pr := range [][2]ssa.Value{{k.x, k.y}, {k.y, k.x}} {
+			cst, ok := pr[1].(*ssa.Const)
+			if !ok || cst.Value == nil {
+				continue
+			}
+			if f := lastField(pr[0]); f != nil {
+				d := f.Name() + "=" + cst.Value.ExactString()
+				if !seen[d] {
+					seen[d] = true
+					ds = append(ds, d)
+				}
+			}
+		}
+	}
+	if len(ds) == 0 {
+		return ""
+	}
+	sort.Strings(ds)
+	return " {" + strings.Join(ds, ",") + "}"
+}
+
+// layoutMatched: key = "layout {d1,d2}". The other side matches if it attaches the same
+// layout to the same discriminants or, when it has no path for exactly these
+// discriminants, on a less specific (default) path.
+func layoutMatched(key string, other map[string]*Path) bool {
+	lay, ds := splitKey(key)
+	exact := false
+	for k := range other {
+		l2, d2 := splitKey(k)
+		if sameSet(ds, d2) {
+			exact = true
+			if l2 == lay {
+				return true
+			}
+		}
+	}
+	if exact {
+		return false
+	}
+	for k := range other {
+		l2, d2 := splitKey(k)
+		if l2 == lay && subset(d2, ds) {
+			return true
+		}
+	}
+	return false
+}
+
+func splitKey(k string) (string, []string) {
+	i := strings.Index(k, " {")
+	if i < 0 {
+		return k, nil
+	}
+	return k[:i], strings.Split(strings.TrimSuffix(k[i+2:], "}"), ",")
+}
+
+func subset(a, b []string) bool {
+	for _, x := range a {
+		found := false
+		for _, y := range b {
+			if x == y {
+				found = true
+			}
+		}
+		if !found {
+			return false
+		}
+	}
+	return true
+}
+
+func sameSet(a, b []string) bool { return subset(a, b) && subset(b, a) }
+
+func keysOf(m map[string]*Path) []string {
+	var out []string
+	for k := range m {
+		out = append(out, "["+k+"]")
+	}
+	sort.Strings(out)
+	return out
+}
+
+// ---------------------------------------------------------------- decoded storage ownership
+
+// c18Consume (C18.R4): a stream decoder never lets a []byte field of the value it
+// fills keep storage that belonged to the receiver before the call.
+func c18Consume(c *Ctx) {
+	P := c.P
+	c.Rule("C18.R4", "decoded byte fields own their storage: in every stream decoder (a function with an io.Reader parameter that stores into a []byte field of a value it was handed), on every path the stored slice derives from an allocation made during this call, never from the field's previous contents or another parameter (a decoder that recycles the receiver's buffer lets one decoded value change when the next is decoded) (E1 paths + def-use)")
+	n := 0
+	for _, fn := range P.ModuleFuncs() {
+		if strings.HasSuffix(P.Fset.Position(fn.Pos()).Filename, "_test.go") || streamParam(fn, false) == nil {
+			continue
+		}
+		// candidate stores
+		var stores []*ssa.Store
+		eachInstr(fn, func(ins ssa.Instruction) {
+			st, ok := ins.(*ssa.Store)
+			if !ok {
+				return
+			}
+			fa, ok := st.Addr.(*ssa.FieldAddr)
+			if !ok || !isByteSlice(st.Val.Type()) {
+				return
+			}
+			root, _ := accessPath(fa)
+			if paramIndex(fn, root) < 0 {
+				return
+			}
+			stores = append(stores, st)
+		})
+		if len(stores) == 0 {
+			continue
+		}
+		name := FuncName(fn)
+		c.Analysed(name)
+		fs := newFailSet()
+		keys := map[string]bool{}
+		for _, st := range stores {
+			keys["own:"+lastField(st.Addr).Name()] = true
+		}
+		ok := walkAllOpts(c, "C18.R4", fn, PathOpts{MaxVisits: 2}, func(p *Path) {
+			fresh := map[string]bool{} // access path of a field -> currently holds storage allocated in this call
+			p.ForEach(func(i int, ins ssa.Instruction) bool {
+				st, ok := ins.(*ssa.Store)
+				if !ok {
+					return true
+				}
+				fa, ok := st.Addr.(*ssa.FieldAddr)
+				if !ok || !isByteSlice(st.Val.Type()) {
+					return true
+				}
+				root, _ := accessPath(fa)
+				if paramIndex(fn, root) < 0 {
+					return true
+				}
+				why := staleStorage(fn, p, st.Val, i, fresh, 0)
+				if why == "" {
+					fresh[apString(fa)] = true
+				} else {
+					fresh[apString(fa)] = false
+					fs.add("own:"+lastField(fa).Name(), "the decoded field "+apString(fa)+" is given storage that "+why+": two values decoded one after the other share bytes, so decoding its encoding no longer yields the original value once the next one is read", ins, p)
+				}
+				return true
+			})
+		})
+		if ok {
+			var ks []string
+			for k := range keys {
+				ks = append(ks, k)
+			}
+			sort.Strings(ks)
+			n += len(ks)
+			fs.report(c, "C18.R4", name, ks, P.Pos(fn.Pos()), "stored slices are allocated during the call on every path")
+		}
+	}
+	c.Floor("C18.R4", "[]byte fields filled by stream decoders", n, 1)
+}
+
+func isByteSlice(t types.Type) bool {
+	sl, ok := t.Underlying().(*types.Slice)
+	if !ok {
+		return false
+	}
+	b, ok := sl.Elem().Underlying().(*types.Basic)
+	return ok && b.Kind() == types.Uint8
+}
+
+// staleStorage returns "" when v's backing store was allocated during this call on path p.
+func staleStorage(fn *ssa.Function, p *Path, v ssa.Value, at int, fresh map[string]bool, depth int) string {
+	if depth > 12 {
+		return "could not be traced to an allocation"
+	}
+	v = p.Resolve(strip(v), at)
+	switch x := v.(type) {
+	case *ssa.Const:
+		return "" // nil
+	case *ssa.MakeSlice, *ssa.Alloc:
+		return ""
+	case *ssa.Convert:
+		return "" // []byte(string) copies
+	case *ssa.ChangeType:
+		return staleStorage(fn, p, x.X, at, fresh, depth+1)
+	case *ssa.Slice:
+		return staleStorage(fn, p, x.X, at, fresh, depth+1)
+	case *ssa.Parameter:
+		return "belongs to the caller (parameter " + x.Name() + ")"
+	case *ssa.Call:
+		if b, ok := x.Call.Value.(*ssa.Builtin); ok && b.Name() == "append" {
+			return staleStorage(fn, p, x.Call.Args[0], at, fresh, depth+1)
+		}
+		return "" // results of other calls: taken as owned by the callee's contract
+	case *ssa.Extract:
+		return ""
+	case *ssa.UnOp:
+		if x.Op != token.MUL {
+			return ""
+		}
+		if d := p.Deref(x, at); d != ssa.Value(x) {
+			return staleStorage(fn, p, d, at, fresh, depth+1)
+		}
+		if fa, ok := x.X.(*ssa.FieldAddr); ok {
+			root, _ := accessPath(fa)
+			if paramIndex(fn, root) >= 0 {
+				if fresh[apString(fa)] {
+					return ""
+				}
+				return "the field already held before this call (" + apString(fa) + " is re-used when it is large enough)"
+			}
+		}
+		return ""
+	}
+	return ""
+}
